@@ -1,6 +1,11 @@
 package main
 
-import "fmt"
+import (
+	"fmt"
+
+	"github.com/emirpasic/gods/v2/queues/circularbuffer"
+	"github.com/emirpasic/gods/v2/trees/btree"
+)
 
 // all21 lists every container kind.
 var all21 = []string{
@@ -69,6 +74,23 @@ func makeSys(c string, j Job) Sys {
 	panic("makeSys: unknown container " + c)
 }
 
+// pureSys: the same system with pure (non-counting) comparators.
+func pureSys(s Sys) Sys {
+	switch x := s.(type) {
+	case *KVSys[Key, Val]:
+		x.NoCount = true
+	case *KVSys[int, Val]:
+		x.NoCount = true
+	case *KVSys[int, int]:
+		x.NoCount = true
+	case *KVSys[string, string]:
+		x.NoCount = true
+	case *KVSys[string, Val]:
+		x.NoCount = true
+	}
+	return s
+}
+
 func sysLabel(c string, j Job) string {
 	l := c
 	if c == "btree" {
@@ -81,6 +103,32 @@ func sysLabel(c string, j Job) string {
 }
 
 func init() {
+	// the two documented constructor preconditions are asserted to BE panics (C17 excludes them)
+	jobKinds["ctorpanic"] = func(j Job, r *JobResult) {
+		panics := func(f func()) (p bool) {
+			defer func() { p = recover() != nil }()
+			f()
+			return
+		}
+		cases := map[string]func(){
+			"circularbuffer.New(0)":  func() { circularbuffer.New[int](0) },
+			"circularbuffer.New(-1)": func() { circularbuffer.New[int](-1) },
+			"btree.NewWith(2)":       func() { btree.NewWith[int, int](2, intCmp("nat")) },
+			"btree.New(0)":           func() { btree.New[int, int](0) },
+		}
+		r.St = Stats{States: 1, Transitions: len(cases), Exhaustive: true, Nested: map[string]int{}, PerSize: map[int]int{}}
+		for name, f := range cases {
+			if panics(f) {
+				r.St.Nested["documented_constructor_panics_confirmed"]++
+			} else {
+				r.Notes = append(r.Notes, name+" did not panic (documented precondition no longer enforced; not a C17 violation)")
+			}
+		}
+		// the smallest legal configurations work
+		circularbuffer.New[int](1).Enqueue(1)
+		btree.New[int, int](3).Put(1, 1)
+		r.St.Samples = []any{"circularbuffer.New(0) panics; btree.NewWith(2, cmp) panics; New(1) / New(3) do not"}
+	}
 	// C08: for every reachable container state, the complete state graph of a fresh iterator
 	jobKinds["iter"] = func(j Job, r *JobResult) {
 		s := makeSys(j.s("c", ""), j)
